@@ -7,6 +7,24 @@ NOTES = ("All checks: ./check <ID> [--tier quick|thorough]; seed from VERIF_SEED
 NOT_APPLICABLE = {}
 
 CHECKS = {
+ "C09": {
+  "level": "translation_validation",
+  "technique": "translation validation of every cycle-breaking / Clark-completion instance from generated programs, exhaustively over all atom assignments (bitmask truth tables, least-model semantics of the cyclic formula)",
+  "text": "For each ground program the engine produces (with and without evidence propagation) every query/evidence node of the LogicDAG must have the least-model truth table of the cyclic LogicFormula; the CNF's definitional clauses must have exactly one extension per atom assignment, equal to the DAG's values; constraint clauses, weights and names must be carried over.",
+  "note": "Exhaustive per instance up to 14 atoms / 150 nodes (larger instances counted as oversize); with evidence propagation query tables are compared on the assignments where the evidence holds.",
+ },
+ "C10": {
+  "level": "translation_validation",
+  "technique": "translation validation of every d-DNNF compiled by the bundled dsharp from generated CNFs: node-by-node decomposability/determinism/smoothness + truth-table equivalence with the CNF",
+  "text": "Every compiled circuit is checked node by node (AND children share no variables, OR children have disjoint truth tables and the same variables) and its root table must equal the CNF's over all variables (<= 18 exhaustive, sampled beyond); labels, weights and constraints must be carried over.",
+  "note": "Trusts the harness's own truth-table evaluator; compilation instances above 120 formula nodes are skipped and counted.",
+ },
+ "C11": {
+  "level": "exploration",
+  "technique": "model-based property testing: bounded-exhaustive and Hypothesis histories of builder calls vs a symbolic Boolean model (bitmask truth tables, least fixpoint for positive cycles)",
+  "text": "Histories of add_atom/add_and/add_or/add_disjunct/negate/add_name under drawn builder options; after every step every key returned so far must still denote its modelled Boolean function in the real node table. All call sequences of length <= 3 (quick) / 4 (thorough) over two atoms are enumerated.",
+  "note": "Deterministic atoms under keep_all / folded 0-1 weights are compared only on the worlds where they take their deterministic value.",
+ },
  "C26": {
   "level": "exploration",
   "technique": "property-based testing: generated programs with a deterministic subquery/2,3 wrapper vs the reference conditional probability (and ProbLog's own top-level inference)",
